@@ -152,6 +152,8 @@ type Ctx struct {
 	curResults     []types.Object
 	resTypes       []types.Type
 	panicOK        string
+	nilPanics      bool
+	assumeAsserts  bool
 	mergeA, mergeB *State
 	inHook         bool
 	funcLits       map[types.Object]*ast.FuncLit
@@ -347,6 +349,13 @@ func (c *Ctx) mergeVal(g string, a, b Val) Val {
 		return x
 	case FuncV:
 		return x
+	case RVal:
+		if y, ok := b.(RVal); ok && y.Kind == x.Kind {
+			if mv := c.mergeVal(g, x.V, y.V); mv != nil {
+				return RVal{Kind: x.Kind, V: mv, Id: x.Id + "|" + y.Id}
+			}
+		}
+		return nil
 	}
 	return nil
 }
@@ -930,6 +939,11 @@ func (c *Ctx) globalVar(st *State, gv *types.Var) Val {
 }
 
 func (c *Ctx) nilCheck(st *State, p PtrV, pos token.Pos) {
+	if c.nilPanics {
+		// a nil dereference is an acceptable (run-time) panic here: the path simply ends
+		st.guard = c.defRaw("g", "Bool", and(st.guard, "(not (= "+p.Ref+" 0))"))
+		return
+	}
 	if c.noSafeNil {
 		return
 	}
@@ -1185,6 +1199,11 @@ func (c *Ctx) typeAssert(x *ast.TypeAssertExpr, st *State, commaOk bool) []Val {
 	}
 	if commaOk {
 		return []Val{res, Scalar{okT, boolSort}}
+	}
+	if c.assumeAsserts {
+		// the operation is allowed to panic on a value of the wrong dynamic type: continue on the success path only
+		st.guard = c.defRaw("g", "Bool", and(st.guard, okT))
+		return []Val{res}
 	}
 	c.oblige(st, "safe.assert", c.pos(x.Pos()), okT, "type assertion "+types.ExprString(x)+" succeeds")
 	return []Val{res}
